@@ -373,12 +373,21 @@ sts_cbc(Source *source, Sink *sink)
 {
     unsigned char buf;
 
-    const int rc = source_get_octet(source, &buf);
+    /* A driver may report that it transferred nothing (zero). Repeat such a
+     * call like the chunk adaptors do, instead of forwarding an unset octet
+     * or dropping the one that was already taken from the source. */
+    int rc;
+    do {
+        rc = source_get_octet(source, &buf);
+    } while (rc == 0);
     if (rc < 0) {
         return (ssize_t)rc;
     }
 
-    return sink_put_octet(sink, buf);
+    do {
+        rc = sink_put_octet(sink, buf);
+    } while (rc == 0);
+    return (ssize_t)rc;
 }
 
 ssize_t
